@@ -27,12 +27,17 @@ if ! (cd "$W/harness" && CARGO_TARGET_DIR="$W/ht" cargo build --release --quiet 
   echo "RESULT patch=$PATCH build=FAILED"; tail -20 "$W/build.log"; exit 2
 fi
 CHK=""
-case " $* " in *" C03 "*) (cd "$W/harness" && CARGO_TARGET_DIR="$W/ht" cargo build --profile checked --quiet >>"$W/build.log" 2>&1) && CHK="$W/ht/checked/ppp-verif" ;; esac
+case " $* " in *" C03 "*|*" C07 "*|*" C09 "*|*" C10 "*|*" C13 "*|*" C20 "*) (cd "$W/harness" && CARGO_TARGET_DIR="$W/ht" cargo build --profile checked --quiet >>"$W/build.log" 2>&1) && CHK="$W/ht/checked/ppp-verif" ;; esac
 for ID in "$@"; do
   out=$(VERIF_DIR="$W/vd" timeout 1500 "$W/ht/release/ppp-verif" "$ID" --tier "${MUT_TIER:-quick}" 2>/dev/null); rc=$?
   if [ "$ID" = C03 ] && [ -n "$CHK" ] && [ $rc = 0 ]; then
     out=$(VERIF_DIR="$W/vd" timeout 1500 "$CHK" "$ID" --tier "${MUT_TIER:-quick}" 2>/dev/null); rc=$?
   fi
+  case "$ID" in C07|C09|C10|C13|C20)
+    if [ -n "$CHK" ] && [ $rc = 0 ]; then
+      out=$(VERIF_SCALE=0.25 VERIF_DIR="$W/vd" timeout 1500 "$CHK" "$ID" --tier "${MUT_TIER:-quick}" 2>/dev/null); rc=$?
+    fi ;;
+  esac
   sig=$(echo "$out" | grep -m1 "sig=" | sed 's/^ *//')
   case $rc in 0) v=missed ;; 1) v=CAUGHT ;; *) v="inconclusive(rc=$rc)" ;; esac
   echo "RESULT patch=$(basename $(dirname $PATCH))/$(basename $PATCH) unit_tests=[$TESTS] check=$ID verdict=$v $sig"
